@@ -85,14 +85,22 @@ func roundingShapes(r *Run, rule string) {
 				r.Check(t == want, rule, key+"/negative=negate-round-negate", P.InstrPos(ret), t, "for a negative value chopPrecisionAndRound returns "+t+" ; required "+want)
 			case t == quo:
 				z, _ := HasAtom(gs, `^`+eq(sign(q(rem)), "0")+`$`)
-				lt, _ := HasAtom(gs, `^`+eq(cmp, "-1")+`$`)
+				lt, _ := HasAtom(gs, `^(`+eq(cmp, "-1")+`|\(`+cmp+` < 0\))$`)
 				even, _ := HasAtom(gs, `^`+eq(`\(\*math/big\.Int\)\.Bit\(`+q(quo)+`, 0\)`, "0")+`$`)
-				r.Check(z || lt || even, rule, key+"/down-iff-below-half-or-even-tie", P.InstrPos(ret), "quotient kept for remainder 0, < half, or an even quotient at the tie", "the quotient is kept under "+strings.Join(atomStrings(gs), " ; "))
+				nb, _ := HasAtom(gs, `^!(`+eq(cmp, "-1")+`|\(`+cmp+` < 0\))$`)
+				na, _ := HasAtom(gs, `^!(`+eq(cmp, "1")+`|\(0 < `+cmp+`\))$`)
+				tie0, _ := HasAtom(gs, `^`+eq(cmp, "0")+`$`)
+				tieD := (nb && na) || tie0
+				r.Check(z || lt || (even && tieD), rule, key+"/down-iff-below-half-or-even-tie", P.InstrPos(ret), "quotient kept for remainder 0, < half, or an even quotient at the tie", "the quotient is kept under "+strings.Join(atomStrings(gs), " ; "))
 			case t == inc:
-				gt, _ := HasAtom(gs, `^`+eq(cmp, "1")+`$`)
+				gt, _ := HasAtom(gs, `^(`+eq(cmp, "1")+`|\(0 < `+cmp+`\))$`)
 				odd, _ := HasAtom(gs, `^!`+eq(`\(\*math/big\.Int\)\.Bit\(`+q(quo)+`, 0\)`, "0")+`$`)
-				tie1, _ := HasAtom(gs, `^!`+eq(cmp, "-1")+`$`)
-				tie2, _ := HasAtom(gs, `^!`+eq(cmp, "1")+`$`)
+				// Cmp yields -1, 0 or 1: the tie is "neither below nor above", however the comparison is spelled
+				tie1, _ := HasAtom(gs, `^!(`+eq(cmp, "-1")+`|\(`+cmp+` < 0\))$`)
+				tie2, _ := HasAtom(gs, `^!(`+eq(cmp, "1")+`|\(0 < `+cmp+`\))$`)
+				if tie, _ := HasAtom(gs, `^`+eq(cmp, "0")+`$`); tie {
+					tie1, tie2 = true, true
+				}
 				r.Check(gt || (odd && tie1 && tie2), rule, key+"/up-iff-above-half-or-odd-tie", P.InstrPos(ret), "quotient+1 for remainder > half or an odd quotient at the tie", "quotient+1 is returned under "+strings.Join(atomStrings(gs), " ; "))
 			default:
 				r.Viol(rule, key+"/unknown-shape", P.InstrPos(ret), "chopPrecisionAndRound returns "+t)
@@ -110,27 +118,33 @@ func coinsMergeSiblings(r *Run, rule string) {
 		return
 	}
 	n := 0
-	Instrs(f, func(in ssa.Instruction) {
+	isAppend := func(in ssa.Instruction) bool {
 		ci, ok := in.(ssa.CallInstruction)
 		if !ok {
-			return
+			return false
 		}
-		if op, nm := calleeName(ci.Common()); op != "builtin" || nm != "append" {
-			return
+		op, nm := calleeName(ci.Common())
+		return op == "builtin" && nm == "append"
+	}
+	// append sites are counted per calling context, so the three arms may share an extracted helper
+	for _, s := range P.CtxSites(f, isAppend) {
+		in := s.In
+		ci := in.(ssa.CallInstruction)
+		if len(ci.Common().Args) < 2 {
+			continue
 		}
-		t := P.callTerm(ci)
-		el := argTerm(t, 1).String()
+		el := P.CtxTerm(s, ci.Common().Args[1]).String()
 		if strings.HasPrefix(el, "types.removeZeroCoins(") {
 			n++
 			r.OK(rule, fmt.Sprintf("safeAdd/tail#%d", n), P.InstrPos(in), el)
-			return
+			continue
 		}
 		if !strings.HasPrefix(el, "list(") {
-			return
+			continue
 		}
 		n++
 		coin := strings.TrimSuffix(strings.TrimPrefix(el, "list("), ")")
-		gs := P.Guards(in, 0)
+		gs := P.CtxGuards(s, 0)
 		ok2, _ := HasAtom(gs, `^!\(types\.Coin\)\.IsZero\(`+q(coin)+`\)$`)
 		// no narrower sign test on the same coin
 		narrower := false
@@ -141,7 +155,7 @@ func coinsMergeSiblings(r *Run, rule string) {
 			}
 		}
 		r.Check(ok2 && !narrower, rule, fmt.Sprintf("safeAdd/append#%d/non-zero-kept", n), P.InstrPos(in), "appended iff !IsZero", "the merge arm appends "+coin+" under {"+strings.Join(atomStrings(gs), " ; ")+"} ; required exactly !IsZero (a sign test drops negative coins, so SafeSub would not report the overdraft)")
-	})
+	}
 	r.Check(n == 5, rule, "safeAdd/five-appends", P.Pos(f.Pos()), "three arms + two tails", fmt.Sprintf("%d append sites in safeAdd (expected 5)", n))
 	if g := r.fn("(types.Coins).SafeSub"); g != nil {
 		for _, ret := range Returns(g) {
